@@ -101,15 +101,33 @@ def cases(rng, tier):
     # every float within a few ulps of their setpoint boundaries: the seek must terminate on whichever side it lands
     from .common import f32_bits, bits_f32
     from . import yawgen as Y
+    def q32(ms):
+        # (float)ms / 1000.0f: two roundings beyond 2^24
+        return bits_f32(f32_bits(bits_f32(f32_bits(float(ms))) / 1000.0))
     for rep in range(6 if tier == "thorough" else 2):
         y = Y.rand_yaw(rng, n=0)
-        y["deltas"] = [(rng.randint(40000, 65535), rng.choice([0, 900, -900, rng.randint(-3000, 3000)])) for _ in range(rng.randint(300, 420))]
+        y["deltas"] = [(rng.randint(40000, 65535), rng.choice([0, 900, -900, rng.randint(-3000, 3000)])) for _ in range(rng.randint(335, 380))]
+        # ... followed by setpoints whose end, computed as start + duration in binary32 seconds, and the next one's
+        # start, computed from the cumulative milliseconds, are as far apart as rounding allows (about one boundary in
+        # a hundred is two ulps apart: searched for)
+        cum = sum(d for d, _ in y["deltas"])
+        for _ in range(40):
+            best, bestgap = rng.randint(40000, 65535), 0
+            for _ in range(400):
+                d = rng.randint(20000, 65535)
+                g = abs(f32_bits(q32(cum + d)) - f32_bits(bits_f32(f32_bits(q32(cum) + q32(d)))))
+                if g > bestgap:
+                    best, bestgap = d, g
+                    if g >= 2:
+                        break
+            y["deltas"].append((best, rng.choice([0, 900, -900, rng.randint(-3000, 3000)])))
+            cum += best
         bs = Y.boundaries(y)
         late = [b for b in bs if b > (1 << 24)]
-        pick = rng.sample(late, min(len(late), 40)) + rng.sample(bs, 10)
+        pick = late[-40:] + rng.sample(late[:-40], max(0, min(len(late) - 40, 8))) + rng.sample(bs, 6)
         qs = []
         for b in pick:
-            u = f32_bits(b / 1000.0)
+            u = f32_bits(q32(b))
             for k in (-3, -2, -1, 0, 1, 2, 3):
                 qs.append(rng.choice("yr") + "%08x" % (u + k))
         yield ("yaw h %s %s" % (hexs(bytes(v & 255 for v in Y.encode(y))), ",".join(qs)), "yaw-boundary-gaps")
